@@ -198,9 +198,14 @@ def run(prop, tier, seed, theorems, select, oracle, nontrivial, gen_force=None, 
             n_ok += 1
             R.evaluations += 1
             h = hashlib.sha1(json.dumps(c.job(), sort_keys=True).encode()).hexdigest()
-            if nontrivial(ep["ok"]) and (h, i) not in seen:
-                seen.add((h, i))
-            hits = oracle(c, i, ep["ok"])
+            nf = core.nonfinite_paths(ep["ok"])
+            if nf:
+                # no property of the results can hold of a result that is not a number (inputs are finite)
+                hits = [("the evaluation of finite inputs returns a value that is not a finite number", {"paths": nf[:6]})]
+            else:
+                if nontrivial(ep["ok"]) and (h, i) not in seen:
+                    seen.add((h, i))
+                hits = oracle(c, i, ep["ok"])
             for what, detail in hits:
                 kid = known_filter(what, detail, c) if known_filter else None
                 if kid:
@@ -209,10 +214,12 @@ def run(prop, tier, seed, theorems, select, oracle, nontrivial, gen_force=None, 
                     continue
                 if len(R.violations) < 3:
                     # shrink before reporting
-                    def fails(cc, i=i, what=what):
+                    def fails(cc, i=i, what=what, nf=bool(nf)):
                         evs = cc.impl.get("evals", []) if cc.impl else []
                         if i >= len(evs) or "ok" not in evs[i].get("ep", {}):
                             return False
+                        if nf or core.nonfinite_paths(evs[i]["ep"]["ok"]):
+                            return nf and bool(core.nonfinite_paths(evs[i]["ep"]["ok"]))
                         return any(w == what for w, _ in oracle(cc, i, evs[i]["ep"]["ok"]))
                     small = shrink_text_case(c, fails)
                     payload = small.replay()
